@@ -5,6 +5,7 @@ package absnfs
 import (
 	"time"
 	"fmt"
+	"reflect"
 	"testing"
 
 	"verif.local/lib/evid"
@@ -89,6 +90,55 @@ func TestVerif_C03(t *testing.T) {
 				rec.Distinct(fmt.Sprintf("out-of-band|%s|size=%d|st=%d", vfC03Modes[how], sz, r.Status))
 			}
 			srv.Close()
+		}
+	}
+	// near-miss names: a CREATE of a name that is NOT the existing file's name (it differs by a
+	// leading/trailing blank, case, a trailing dot ...) must leave the existing file alone, whatever
+	// the server makes of the odd name - and if it answers OK the object exists under exactly that name
+	for how := uint32(0); how < 3; how++ {
+		for _, nm := range []string{"x ", " x", "x\t", "\tx", "x\n", "x\r", " x ", "x\u00a0", "\u00a0x", "X", "x.", "x~", "x\u200b", "./x"[2:] + "%00", "xx", "x "+"x"} {
+			for _, sz := range []int{-1, 0} {
+				if how == 2 && sz != -1 {
+					continue
+				}
+				fs, _ := vfC03Setup("file")
+				srv, err := vfNewSrv(fs, ExportOptions{AttrCacheTimeout: 1})
+				if err != nil {
+					rec.Infra(err.Error())
+					return
+				}
+				c := srv.client()
+				root, _ := c.mnt("/")
+				lr, _ := c.lookup(root, "d")
+				if lr == nil || lr.Status != 0 {
+					rec.Infra("lookup d")
+					srv.Close()
+					return
+				}
+				dir := vfFH(lr.FH)
+				c.lookup(dir, "x")
+				var sa xdrw.Sattr3
+				if sz >= 0 {
+					sa.Size = xdrw.U64p(uint64(sz))
+				}
+				before := fs.Snapshot()
+				rec.Eval(1)
+				desc := fmt.Sprintf("mode=%s size=%d name=%q next to the existing file \"x\"", vfC03Modes[how], sz, nm)
+				r, _ := c.create(dir, nm, how, sa, [8]byte{7})
+				after := fs.Snapshot()
+				for _, keep := range []string{"/d/x", "/d/other"} {
+					if b, a := before[keep], after[keep]; !reflect.DeepEqual(b, a) {
+						rec.Violate("C03/existing-object-changed/by-create-of-another-name/mode="+vfC03Modes[how], fmt.Sprintf("%s: %s changed (size %d -> %d)", desc, keep, b.Size, a.Size), desc)
+					}
+				}
+				if r != nil && r.Status == 0 {
+					if e, ok := after["/d/"+nm]; !ok || e.Kind != refs.KFile {
+						rec.Violate("C03/created-object-not-under-the-requested-name", fmt.Sprintf("%s answered OK, yet the backend has no regular file of exactly that name", desc), desc)
+					}
+				}
+				rec.Distinct(fmt.Sprintf("near-miss-name|%s|size=%d|st=%d", vfC03Modes[how], sz, vfSt(r)))
+				srv.Close()
+			}
 		}
 	}
 	rec.Set("matrix_cases", n)
